@@ -159,7 +159,7 @@ pub fn run_case(ctx: &Ctx, case: u64, ev: &mut Ev) {
         return;
     }
     let mut rng = Rng::derive(ctx.seed, "C04", case);
-    rng.big = ctx.tier == crate::Tier::Thorough && rng.chance(0.2);
+    rng.big = crate::draw_big(ctx, &mut rng);
     // swarm configuration
     let cfg = HistCfg {
         max_ops: if rng.big { 40 } else { *rng.pick(&[3usize, 6, 10, 16, 25]) },
